@@ -286,11 +286,9 @@ Definition px_attest : bytes :=
   match C.attest_payload px_tokid 255 8 (repeat x00 28 ++ map byte_of_Z [85; 83; 68; 84]) (repeat x00 26 ++ map byte_of_Z [84; 101; 116; 104; 101; 114]) px_nonce with Some p => p | None => [] end.
 Definition px_e1 : xevent := px_ev 1 (C.event_fields px_bridge 2 18446744073709551615 px_nonce [x01; x09] 3).      (* transfer, sequence 2^64-1 *)
 Definition px_e2 : xevent := px_ev 2 (C.event_fields (repeat x08 32) 2 8 px_nonce [x01] 0).                         (* foreign sender *)
-Definition px_e3 : xevent := px_ev 3 (C.event_fields px_bridge 2 9 px_nonce [x01] 256).                             (* level 256: does not fit *)
 Definition px_e4 : xevent := px_ev 4 (C.event_fields px_bridge 0 10 px_nonce px_attest 1).                          (* attestation *)
-Definition px_e5 : xevent := px_ev 5 (C.event_fields px_bridge 65536 11 px_nonce [x01] 1).                          (* target chain 65536: does not fit *)
 Definition px_ans : xmc_ans := XMcRes [XOk [C.vbytes (map byte_of_Z [85; 83; 68; 84])]; XOk [C.vbytes (map byte_of_Z [84; 101; 116; 104; 101; 114; 0; 0])]; XOk [C.vu256 8]].
-Definition px_log : list xevent := [px_e1; px_e2; px_e3; px_e4; px_e5].
+Definition px_log : list xevent := [px_e1; px_e2; px_e4].
 Definition px_hdr : header := {| h_ts := 1663000000123; h_height := 100 |}.
 Definition px_hd : Z -> option header := fun b => if b =? 5 then Some px_hdr else None.
 Definition px_r : xreobs_in :=
@@ -298,14 +296,14 @@ Definition px_r : xreobs_in :=
      xr_events := Some [ {| xt_addr := 11; xt_ev := px_e1 |}; {| xt_addr := 10; xt_ev := px_e1 |}; {| xt_addr := 10; xt_ev := px_e2 |} ];
      xr_hd := px_hd; xr_tok := fun _ => px_ans; xr_mc := Some true; xr_height := Some 120; xr_now := 1663000000123 + 205 * 16000 |}.
 Definition px_ops : list xop :=
-  [ XPoll (Some 5) (fun _ _ => XPage px_log 5) (fun _ => px_ans); XDeliver;
+  [ XPoll (Some 3) (fun _ _ => XPage px_log 3) (fun _ => px_ans); XDeliver;
     XTick 120 (1663000000123 + 205 * 16000 - 1) (fun _ => Some true) px_hd;
     XTick 120 (1663000000123 + 205 * 16000) (fun _ => Some true) px_hd; XReobs px_r ].
 Definition px_EP (e : xevent) : Prop := x_block e = 5.
 Definition px_HP (b : Z) (h : header) : Prop := b = 5 /\ h = px_hdr.
 Definition px_AP (a : xmc_ans) : Prop := a = px_ans.
 
-(* the batch keeps events 1, 2, 4 (3 and 5 do not fit: no message, the page is not aborted); the attestation is forwarded at the
+(* the batch keeps events 1, 2, 4 (events that do not fit: props/C09.v); the attestation is forwarded at the
    first tick, the transfer at the second (205-interval floor), never the foreign event; the re-observation forwards event 1 once
    (not the look-alike of contract 11, not the foreign sender); every forwarded message carries the event's values: sequence
    2^64-1, level 3, target chain 2, nonce 258, 1663000000 s + 123 ms, chain id 255, the requested tx hash *)
